@@ -6074,12 +6074,7 @@ bool SoPlexBase<R>::setIntParam(const IntParam param, const int value, const boo
 #endif
          break;
 #else
-         _simplifier = &_simplifierMainSM;
-         assert(_simplifier != nullptr);
-#ifdef SOPLEX_WITH_MPFR
-         _boostedSimplifier = &_boostedSimplifierMainSM;
-         assert(_boostedSimplifier != nullptr);
-#endif
+         // PaPILO is not available: reject the value without touching the current simplifier
          return false;
 #endif
 
